@@ -142,11 +142,18 @@ theorem kill_without_push (rs : Char → Bool) (max : Nat) (s : St) (arg : Arg) 
     · rename_i h; exact Or.inr ⟨rfl, h.1, h.2⟩
     · rename_i h; rw [if_neg h] at hp; simp [Kill.ofDel] at hp
   · left; unfold killWordK at hp ⊢
-    split
-    · split
-      · rename_i h1 h2; rw [h1] at hp; simp [h2, Kill.ofDel] at hp
-      · rfl
-    · rfl
+    generalize Gen.C09.killWordNegFixed = fl at hp ⊢
+    cases hf : findNextWordEnding rs s.buf arg.val with
+    | none => rfl
+    | some pos =>
+      rw [hf] at hp
+      simp only at hp ⊢
+      by_cases h0 : pos ≠ 0
+      · rw [if_pos h0] at hp
+        by_cases h1 : fl = true ∧ pos < 0
+        · rw [if_pos h1] at hp; simp [Kill.ofDel] at hp
+        · rw [if_neg h1] at hp; simp [Kill.ofDel] at hp
+      · rw [if_neg h0]; rfl
   · left; unfold ruboutK at hp ⊢; simp only at hp ⊢
     split
     · rename_i h; rw [if_pos h] at hp; simp [Kill.ofDel] at hp
@@ -278,13 +285,28 @@ theorem yank_after_kill_restores (rs : Char → Bool) (max : Nat) (hmax : 0 < ma
   have := yank_restores _ _ (kill_establishes rs max hmax s hwf arg cmd k hk hp hacc)
   simpa [step, Arg.val] using this
 
-theorem killWordK_cur (rs : Char → Bool) (b : Buf) (n : Int) : (killWordK rs b n).buf.cur = b.cur := by
+/-- with a non-negative argument the position found is in front of the cursor -/
+theorem findNextWordEnding_pos (rs : Char → Bool) (b : Buf) (n : Int) (hn : 0 ≤ n) (pos : Int)
+    (h : findNextWordEnding rs b n = some pos) : 0 < pos := by
+  unfold findNextWordEnding at h
+  rw [if_neg (by omega)] at h
+  split at h
+  · cases h
+  · rename_i k _
+    cases hm : (reMatches rs false (b.after.drop 1))[k]? with
+    | none => rw [hm] at h; cases h
+    | some m => rw [hm] at h; simp at h; omega
+
+theorem killWordK_cur (rs : Char → Bool) (b : Buf) (n : Int) (hn : 0 ≤ n) : (killWordK rs b n).buf.cur = b.cur := by
   unfold killWordK
-  split
-  · split
-    · unfold delete Kill.ofDel; split <;> rfl
-    · rfl
-  · rfl
+  generalize Gen.C09.killWordNegFixed = fl
+  cases hf : findNextWordEnding rs b n with
+  | none => rfl
+  | some pos =>
+    have := findNextWordEnding_pos rs b n hn pos hf
+    simp only
+    rw [if_pos (by omega), if_neg (fun h => by have := h.2; omega)]
+    unfold delete Kill.ofDel; split <;> rfl
 
 /-- a repeated kill-word appends: the ring top grows at its END, `orig` stays restorable -/
 theorem killWord_repeat_accumulates (rs : Char → Bool) (max : Nat) (hmax : 0 < max) (orig : Text) (s : St)
@@ -297,7 +319,7 @@ theorem killWord_repeat_accumulates (rs : Char → Bool) (max : Nat) (hmax : 0 <
   obtain ⟨hb, hr⟩ := step_kill rs max s .none .killWord _ hk
   have hacc : accOf s .none .killWord = .fwd := by simp [accOf, hprev, hkk]
   obtain ⟨h1, h2, _⟩ := killWordK_ok rs s.buf hwf 1
-  have hcur := killWordK_cur rs s.buf 1
+  have hcur := killWordK_cur rs s.buf 1 (by omega)
   simp only [Restorable]
   rw [hr, pushKill_push _ _ _ _ hp, hacc, setData_top max hmax, hb]
   refine ⟨⟨?_, rfl⟩, rfl⟩
